@@ -34,7 +34,7 @@ BKG_KEY = {'background': 0, 'background_mesh': 0, 'background_median': 0,
 def bkg_configs(r):
     from photutils.background import BkgZoomInterpolator, BkgIDWInterpolator
     cfgs = []
-    for thr in ('none', 'below', 'above'):
+    for thr in ('none', 'below', 'above', 'high'):
         for interp in (BkgZoomInterpolator, BkgIDWInterpolator):
             for fs in ((3, 3), (1, 1)):
                 cfgs.append((thr, interp, fs))
@@ -51,6 +51,10 @@ def make_bkg(img, mask, thr, interp, fs):
         probe = Background2D(img, (6, 5), **kw)
         mn = float(probe._min_bkg_stats)
         t = mn - 1.0 if thr == 'below' else mn + 0.25
+        if thr == 'high':
+            # between the brightest box and the typical box: the bright box is selected by its unfiltered value only
+            st = np.asarray(probe._bkg_stats if probe._bkg_stats is not None else probe.background_mesh, float)
+            t = 0.5 * (float(np.nanmax(st)) + float(np.nanmedian(st)))
         return Background2D(img, (6, 5), filter_threshold=t, **kw)
 
 
@@ -81,7 +85,7 @@ def bkg_stream(rep, drv, r, norders, exhaustive_pairs=True):
             orders.append(r.sample(BKG_ATTRS, k))
         for order in orders:
             b = make_bkg(img, mask, thr, interp, fs)
-            selective = int(thr == 'above' and fs != (1, 1))
+            selective = int(thr in ('above', 'high') and fs != (1, 1))
             failed = None
             for i, a in enumerate(order):
                 try:
@@ -423,7 +427,7 @@ def gridded_history(rep, r, n):
 def run(rep, tier):
     thorough = tier == 'thorough'
     rep.rule = ('(a) Background2D: all ordered pairs and triples of the 8 public lazily evaluated attributes + random longer orders, '
-                'x {filter_threshold None, below, above min} x {Zoom, IDW} x filter_size {(3,3),(1,1)}, each value compared with a fresh object; '
+                'x {filter_threshold None, below, just above the minimum, between the brightest and the typical box} x {Zoom, IDW} x filter_size {(3,3),(1,1)}, each value compared with a fresh object; '
                 '(b) random histories of normalize(max|sum)/unnormalize/first reads on RadialProfile and CurveOfGrowth vs the Lean scale model; '
                 '(c) call sequences on PSFPhotometry (with/without group_id), IterativePSFPhotometry, the star finders, Ellipse; '
                 'aperture attribute re-assignment; GriddedPSFModel evaluation orders - each vs a fresh object. '
